@@ -58,7 +58,14 @@ pub fn check_rule(c: &RuleCase, st: &mut Stats) -> Result<(), String> {
     }
     let types = [r.std.to_tz().map_err(|e| format!("{e:?}"))?, r.dst.to_tz().map_err(|e| format!("{e:?}"))?];
     let extra = Some(TransitionRule::Alternate(alt));
-    let zone = TimeZoneRef::new(&[], &types, &[], &extra).map_err(|e| format!("rule-only zone refused: {e:?}"))?;
+    // a quarter of the rules are evaluated in a zone that also carries a leap-second table: the rule is still read on UTC instants
+    let leap_recs: Vec<tz::timezone::LeapSecond> = if (r.start_time as i64 + r.end_time as i64 + r.std.off as i64).rem_euclid(4) == 0 {
+        st.class("rule_zone_with_leap_table");
+        crate::oleap::real_table().iter().map(|&(t, c)| tz::timezone::LeapSecond::new(t, c)).collect()
+    } else {
+        vec![]
+    };
+    let zone = TimeZoneRef::new(&[], &types, &leap_recs, &extra).map_err(|e| format!("rule-only zone refused: {e:?}"))?;
     let mz = MZone { trans: vec![], types: vec![r.std.clone(), r.dst.clone()], leaps: vec![], trailer: MTrailer::Alt(r.clone()) };
     let model = ZoneModel { z: &mz, class: Some(class) };
     let mut instants = c.instants.clone();
